@@ -21,6 +21,17 @@ from ..tmpl import MARK
 def parse_selection(S, t):
     """t = ite(len(F)==1, (0, first(F)), iflet Some(_) = sel { sel } else { return Err })
     returns (F term, sel var term) or None"""
+    if isinstance(t, tuple) and t[0] == 'iflet' and len(t) == 5 and t[1].startswith('Some(') and isinstance(t[2], tuple) and t[2][0] == 'var' \
+            and t[3] == ('some_of', t[2]) and t[4] == ('never',):
+        # merged form: one search loop that designates "the only field, or the marked one" (validate_sel_var checks that mark)
+        d = S.tm.def_by_id(t[2][1])
+        somes = [a for a in (d.assigns if d is not None else []) if a.value['k'] == 'Call' and es(a.value['func']) == 'Some']
+        if len(somes) == 1:
+            loops = [c for c in somes[0].ctx if c['k'] == 'for' and c not in d.ctx]
+            if len(loops) == 1:
+                info = analyse_iter(loops[0]['iter'])
+                return S.tm.term(info.base, loops[0]['scope']), t[2], 'merged'
+        return None
     if not (isinstance(t, tuple) and t[0] == 'ite' and len(t) == 4):
         return None
     cond, a, b = t[1], t[2], t[3]
@@ -38,7 +49,7 @@ def parse_selection(S, t):
     return F, b[2], a
 
 
-def validate_sel_var(S, var, F, rule, label, own_member='flag'):
+def validate_sel_var(S, var, F, rule, label, own_member='flag', merged=False):
     """the mutable Option var is assigned `Some((index, field))` of the enumerate loop over F, under exactly the own-flag mark"""
     d = S.tm.def_by_id(var[1])
     if d is None or not d.assigns:
@@ -63,6 +74,11 @@ def validate_sel_var(S, var, F, rule, label, own_member='flag'):
     atoms = S.facts.atoms(a.ctx, S.fw)
     marks = [x for x in atoms_after_loop(atoms, L) if not (x[0] == 'some' and x[1] == var)]
     ok_mark = len(marks) == 1 and marks[0][0] == 'truth' and marks[0][2] is True and S.attr_rec_ok(marks[0][1], L, own_member)
+    if merged:
+        # "the list has exactly one field, or this field carries the marker"
+        ok_mark = len(marks) == 1 and marks[0][0] == 'or' and marks[0][2] is True and len(marks[0][1]) == 2 \
+            and sorted(x[0] for x in marks[0][1]) == ['len', 'truth'] \
+            and all((x == ('len', F, 1, True)) if x[0] == 'len' else (x[2] is True and S.attr_rec_ok(x[1], L, own_member)) for x in marks[0][1])
     if not ok_mark:
         return 'the field is designated under %s (expected exactly: its own `%s` marker)' % ([atom_s(m)[:80] for m in marks], own_member)
     return True
@@ -155,7 +171,7 @@ def check_struct(cx, fn, rep, facts, mutable):
         if F != ('field', ('payload', 'Data::Struct', 0, ('field', ('param', 'ast'), 'data')), 'fields'):
             S.bad('SUM-DEREF', 'struct-fields', 'the field list searched is not the struct\'s own fields', b)
             ok = False
-        r = validate_sel_var(S, var, F, 'SUM-DEREF', 'struct')
+        r = validate_sel_var(S, var, F, 'SUM-DEREF', 'struct', merged=(first == 'merged'))
         if r is not True:
             S.bad('SUM-DEREF', 'struct-selection', r, b)
             ok = False
@@ -260,7 +276,7 @@ def check_enum(cx, fn, rep, facts, mutable):
         if F != ('field', ('elem', V), 'fields'):
             S.bad('SUM-DEREF', 'enum-fields', 'the field list searched is not this variant\'s fields', a)
             ok = False
-        r = validate_sel_var(S, var, F, 'SUM-DEREF', 'enum')
+        r = validate_sel_var(S, var, F, 'SUM-DEREF', 'enum', merged=(first == 'merged'))
         if r is not True:
             S.bad('SUM-DEREF', 'enum-selection', r, a)
             ok = False
@@ -497,6 +513,18 @@ def check_ungroup_helper(cx, rep, rule='SUM-DEREF'):
         # no helper of that name: every `Type::Reference` test on a written type is then reported where it stands
         return False
     f = fs[0]
+    # the iterative spelling: `let mut v = ty; loop { v = match v { Group(g) => g.elem.., Paren(p) => p.elem.., _ => return v }; }`
+    st_ = f.block.get('stmts', [])
+    params_ = [p_[0] for p_ in f.params()]
+    if len(st_) == 2 and len(params_) == 1 and st_[0].get('k') == 'Local' and st_[0]['pat'].get('k') == 'Ident' and isinstance(st_[0].get('init'), dict) \
+            and st_[0]['init'].get('k') == 'Path' and st_[0]['init']['path']['s'] == params_[0] and st_[1].get('k') == 'Expr' and st_[1]['expr'].get('k') == 'Loop':
+        from .c17 import descent_loop_arms
+        da = descent_loop_arms(st_[1]['expr'])
+        if da is not None and da[0] == st_[0]['pat']['name']:
+            got = dict((k.replace('syn::', ''), v) for k, v in da[1])
+            if set(got) == {'Type::Group', 'Type::Paren', '_'} and got['Type::Group'] == ('descend', 'elem') and got['Type::Paren'] == ('descend', 'elem') and got['_'][0] == 'exit':
+                rep.ok(rule, f.qname + '|peels groups and parentheses only', {'helper': f.qname, 'form': 'loop'})
+                return True
     t = fn_term(cx, f)
     arms = {}
     if isinstance(t, tuple) and t[0] == 'match' and t[1] == P(0):
@@ -538,6 +566,16 @@ def check_dereference_helper(cx, rep, rule='SUM-DEREF'):
             return isinstance(x, tuple) and len(x) == 3 and x[0] == 'call' and x[1] in DEREF and isinstance(x[2], tuple) and len(x[2]) == 3 \
                 and x[2][0] == 'field' and x[2][2] == 'elem' and isinstance(x[2][1], tuple) and x[2][1][:3] == ('payload', 'Type::Reference', 0) \
                 and is_ungrouped(x[2][1][3], P(0))
+        if name == 'dereference_changed' and isinstance(t, tuple) and t[0] == 'tuple' and len(t) == 3 and isinstance(t[1], tuple) and len(t[1]) == 3 \
+                and t[1][0] == 'call' and t[1][1] in DEREF and t[1][2] == P(0) and isinstance(t[2], tuple) and t[2][0] == 'matches' \
+                and t[2][2] in ('Type::Reference(_)', 'syn::Type::Reference(_)'):
+            # `(dereference(ty), matches!(ungroup(ty), Type::Reference(_)))`: dereference(ty) is ty itself when ty is no reference
+            if is_ungrouped(t[2][1], P(0)):
+                rep.ok(rule, f.qname + '|strips all references', {'helper': f.qname, 'form': 'pair'})
+            else:
+                rep.bad(rule, f.qname, 'reference-test-sees-group',
+                        '`%s` tests the written type for `Type::Reference` without peeling parentheses / the invisible group of a `$t:ty` fragment' % name, f.file, f.line)
+            continue
         ok = isinstance(t, tuple) and t[0] == 'iflet' and t[1] in ('Type::Reference(_)', 'syn::Type::Reference(_)')
         if ok and t[2] == P(0):
             rep.bad(rule, f.qname, 'reference-test-sees-group',
